@@ -231,6 +231,11 @@ func (s *Stream) sendMessageWithEnd(ctx context.Context, data []byte, end byte) 
 	if s.gcm != nil && s.encrypted {
 		// Calculate the size overhead from encryption
 		encryptedSize := s.calculateEncryptedSize(len(data))
+		// The receiver applies MaxMessageSize to the wire length (payload plus
+		// IV/tag), so refuse here what the peer would reject.
+		if encryptedSize > MaxMessageSize {
+			return fmt.Errorf("message too large: %d bytes encrypted (max %d)", encryptedSize, MaxMessageSize)
+		}
 
 		// Construct header with encrypted data length
 		finalHeader[0] = end // End flag
